@@ -27,7 +27,7 @@ CLAIMS = {
          "pattern (C09_coherent); complete enumeration of fault positions (transient and persistent) over base scenarios on the real library, "
          "replayed through the model; provenance of every shown value checked bit-exactly against fresh problems",
          TB + "trait contract faulty_functional as hypothesis of C09_coherent", "§6 C09"),
- "C10": ("proof", "C10_history / C10_fresh (cache after set_params(a) is a function of data, weights, threshold and a only, for every prior history), "
+ "C10": ("proof", "E2E_history (Props/E2E.v: after ANY history the shown coefficients / residuals are the exact least-squares ones for the reported parameters), C10_history / C10_fresh (cache after set_params(a) is a function of data, weights, threshold and a only, for every prior history), "
          "C10_query_pure, C10_jacobian, C10_no_poison (column loops leave no uninitialised cell, all shapes); random histories with failing, "
          "repeated and extreme updates compared bit-exactly with fresh problems; all small shapes for the uninitialised matrices",
          TB + "trait contract faulty_functional", "§6 C10"),
@@ -53,7 +53,7 @@ CLAIMS.update({
          "(C03_formula, C03_svd_kaufman, C03_orthogonal), algebraic first-order identity (C03_gradient), None iff a derivative failed, never "
          "partial; correspondence: every Jacobian column vs exact spec for shared-parameter models, 1-6 right-hand sides, all weights; "
          "failing derivative at every index", NUM + "differentiability of alpha -> C(alpha) (Golub-Pereyra) not formalised", "§6 C03"),
- "C04": ("proof", "for EVERY script of accepted/rejected steps and every (failing) model: fit = Ok iff termination successful (table regenerated from "
+ "C04": ("proof", "end-to-end composition with the exact least-squares layer (Props/E2E.v: E2E_fit — the problem handed back shows coefficients optimal for, and residuals W(Y - Phi C) at, the parameters it reports, for every script and termination); for EVERY script of accepted/rejected steps and every (failing) model: fit = Ok iff termination successful (table regenerated from "
          "the linked crate each run), final problem coherent and at the parameters the objective belongs to, objective never above the initial "
          "one given the optimizer's acceptance contract, evaluation budget (C04_*); correspondence: recorded optimizer runs replayed as scripts "
          "through Model/LMDriver.v, final state bit-exact vs fresh problem, objective identities on the implementation's numbers, final state "
